@@ -87,6 +87,11 @@ def run_r1(chk: Check, prog: Program) -> None:
     # one node class throughout, and a tree that mixes two node classes (rotation must not depend on the classes of the
     # node and its neighbours: every neighbour independently ranges over both)
     universes = [("", frozenset(["BinaryTreeNode"])), ("mixed classes: ", frozenset(["AddExpression", "MultiplyExpression"]))]
+    from .common import value_equal_classes
+    veq = value_equal_classes(prog)
+    if veq:
+        # node classes with a user-defined == : rotation must go by identity of the nodes, not by what == answers
+        universes.append(("value-comparing classes: ", frozenset(veq[:2] + ["BinaryTreeNode"])))
     results = []
     for tag, kinds in universes:
         def body(it: Interp, kinds=kinds):
